@@ -2,7 +2,7 @@ import warnings
 
 from luqum.elasticsearch.tree import ElasticSearchItemFactory
 from luqum.exceptions import OrAndAndOnSameLevel
-from luqum.tree import OrOperation, AndOperation, UnknownOperation
+from luqum.tree import OrOperation, AndOperation, UnknownOperation, Prohibit
 from luqum.tree import Word  # noqa: F401
 from .tree import (
     EMust, EMustNot, EShould, EWord, EPhrase, ERange,
@@ -420,10 +420,16 @@ class ElasticsearchQueryBuilder(TreeVisitor):
                 _name=self.get_name(node, context),
             )
 
+    def _range_bound(self, bound):
+        # a negative bound, as in [-1 TO 5], is parsed as Prohibit(Word("1"))
+        if isinstance(bound, Prohibit):
+            return "-" + bound.a.value
+        return bound.value
+
     def visit_range(self, node, context):
         kwargs = {
-            'gte' if node.include_low else 'gt': node.low.value,
-            'lte' if node.include_high else 'lt': node.high.value,
+            'gte' if node.include_low else 'gt': self._range_bound(node.low),
+            'lte' if node.include_high else 'lt': self._range_bound(node.high),
         }
         yield self.es_item_factory.build(
             self.E_RANGE,
